@@ -6,25 +6,26 @@ from pathlib import Path
 
 V = Path(__file__).resolve().parent.parent
 
-# property -> dict(text=..., note=..., technique=..., design=...) for claimed; or dict(na="reason")
-TABLE = {
-    "C14": dict(
-        text="Lean theorems (PPProofs/Props/C14.lean) prove for ALL strings and all loc<=len that col, lineno and line "
-             "describe one and the same line (unique line start, 1-based offset, newline count, line text), and that "
-             "expandtabs output is tab-free and idempotent; the Lean model is a statement-by-statement transcription of "
-             "util.col/lineno/line and is tied to the code by an exhaustive small-alphabet + random differential run on "
-             "every check. Parser-reported locations (actions, scan_string, Located, original_text_for, exceptions) are "
-             "partial: decided by slice-identity oracles on the real code and by the parse-model correspondence.",
-        note="Trusted: Lean kernel; axioms propext/Classical.choice/Quot.sound; the LineCol transcription (checked "
-             "differentially); CPython str.rfind/find/count/expandtabs. Parser location clauses are oracle-checked only.",
-        technique="Lean 4 proof over a transcribed model + differential correspondence with util.py",
-        design="§5 C14",
-    ),
-}
+# each harness/props/cXX.py defines META = dict(text=..., note=..., technique=..., design=...) for a claimed
+# property, or META = dict(na="reason") for one that is not claimed.
+import importlib
+sys.path.insert(0, str(V))
+
+
+def load_table():
+    t = {}
+    for f in sorted((V / "harness" / "props").glob("c[0-9][0-9].py")):
+        m = importlib.import_module(f"harness.props.{f.stem}")
+        if hasattr(m, "META"):
+            t[f.stem.upper()] = m.META
+    return t
+
+
 NOT_YET = "check not built yet in this round (planned: Lean model + proof + correspondence, see DESIGN.md §5)"
 
 
 def main():
+    TABLE = load_table()
     props = [json.loads(l)["id"] for l in (V / "properties.jsonl").read_text().splitlines() if l.strip()]
     checks, na = [], []
     for pid in props:
@@ -71,13 +72,13 @@ def main():
         "notes": "See DESIGN.md. Exit 2 = harness trouble/timeout, never a violation.",
     }
     (V / "MANIFEST.json").write_text(json.dumps(man, indent=1) + "\n")
-    try:
-        import jsonschema
-        jsonschema.validate(man, json.loads(Path("/root/.vp/MANIFEST.schema.json").read_text()))
-        print("MANIFEST.json valid;", len(checks), "checks,", len(na), "not_applicable")
-    except ImportError:
-        print("jsonschema not available; written without validation")
-
+    import subprocess
+    r = subprocess.run(["python3-vt", "-c", "import json,jsonschema,sys; jsonschema.validate(json.load(open(sys.argv[1])), "
+                        "json.load(open('/root/.vp/MANIFEST.schema.json')))", str(V / "MANIFEST.json")],
+                       capture_output=True, text=True)
+    print("MANIFEST.json", "valid;" if r.returncode == 0 else "INVALID: " + r.stderr[-400:], len(checks), "checks,",
+          len(na), "not_applicable")
+    sys.exit(r.returncode)
 
 if __name__ == "__main__":
     main()
